@@ -70,10 +70,85 @@ def cfg(stamp="FALSE", cae="FALSE", invs=("MonitorOk", "CloseOnce", "SingleTrans
             + "".join("INVARIANT %s\n" % i for i in invs) + "".join("PROPERTY %s\n" % p for p in props))
 
 
+KIND = {"text": ["text", "t"], "ping": ["ping", []], "pong": ["pong", []], "close": ["close", 1000, [98]], "eof": ["eof"]}
+
+
+def to_world(sc):
+    """App.tla scenario (ticks) -> appworld scenario (1 tick = 1 s)"""
+    conns = []
+    for c in sc["conns"]:
+        if not c["accept"]:
+            conns.append({"accept": False})
+            continue
+        evs = sorted({(int(o), k) for o, k in c["ev"]}, key=lambda x: x[0])     # the model's netSched is a set
+        out = []
+        prev = 0
+        for o, k in evs:
+            out.append([(o - prev) * 1000, list(KIND[k])])
+            prev = o
+        pong = None
+        if c["lat"] >= 0:
+            pong = c["lat"] * 1000 if c["stopAfter"] == 0 else {"stop_after": c["stopAfter"], "latency": c["lat"] * 1000}
+        conns.append({"events": out, "pong": pong})
+    run = {}
+    if sc["I"]:
+        run["ping_interval"] = sc["I"]
+    if sc["T"]:
+        run["ping_timeout"] = sc["T"]
+    if sc["R"]:
+        run["reconnect"] = sc["R"]
+    w = {"conns": conns, "run": run, "callbacks": ["open", "reconnect", "message", "data", "error", "close", "ping", "pong"]}
+    if sc["userAt"] >= 0:
+        w["user"] = [[sc["userAt"] * 1000, "close"]]
+    return w
+
+
+def real_log(sc):
+    from .. import appworld, approj
+    w = to_world(sc)
+    log, _ = appworld.run_app(w)
+    out = []
+    for e in approj.project(log, w, "b"):
+        if e["ev"] == "cb":
+            out.append([e["name"], e["t"] / 1000.0])
+        elif e["ev"] == "dial":
+            out.append(["dial", e["outcome"], e["t"] / 1000.0])
+        elif e["ev"] == "run_ret":
+            out.append(["ret", e["value"]])
+        elif e["ev"] == "run_raise":
+            out.append(["raise", e["cls"]])
+    return out
+
+
+def replay_behaviours(ctx, pid, r):
+    """spec -> code: TLC printed, for every scenario, every way the run can end as the application sees it
+    (callback sequence with times, connection attempts, return value).  The real run_forever is driven through
+    each scenario; what it shows must be one of the behaviours of the model."""
+    import json
+    groups = {}
+    for b in tlc.emitted(r, "B"):
+        key = json.dumps(b["sc"], sort_keys=True)
+        groups.setdefault(key, (b["sc"], []))[1].append([[float(x) if isinstance(x, (int, float)) and not isinstance(x, bool) else x for x in item] for item in b["log"]])
+    n = 0
+    bad = 0
+    for key, (sc, logs) in groups.items():
+        got = real_log(sc)
+        gotn = [[float(x) if isinstance(x, (int, float)) and not isinstance(x, bool) else x for x in item] for item in got]
+        n += 1
+        if gotn not in logs:
+            bad += 1
+            ctx.remark("DRIFT: real run of model scenario %s shows %s, App.tla allows %s" % (key[:200], json.dumps(got)[:300], json.dumps(logs[:2])[:300]))
+    ctx.notes["model_behaviours_replayed"] = {"scenarios": n, "terminal_behaviours": sum(len(l) for _, l in groups.values()), "not_reproduced": bad}
+    return n, bad
+
+
 def model_check(ctx, pid):
     scs = scenarios(pid, ctx.tier)
     name = "AppMC_%s" % pid
-    r = tlc.run(name, cfg(), "%s_appmc" % pid.lower(), gen=module(name, scs), timeout=3000)
+    r = tlc.run(name, cfg(invs=("MonitorOk", "CloseOnce", "SingleTransport", "TimeBounded", "NoStuck", "EmitDone")), "%s_appmc" % pid.lower(),
+                gen=module(name, scs), timeout=3000)
+    if not r.violated:
+        replay_behaviours(ctx, pid, r)
     ctx.add_tlc(r, "App.tla (+AppMon): %d scenarios, all interleavings of Main / Ping / User / Net per tick, incl. liveness Termination" % len(scs))
     ctx.notes["model_scenarios"] = len(scs)
     if r.violated:
